@@ -165,6 +165,14 @@ def concrete_candidates(spec, name):
     return out
 
 
+def _mentions_class(t):
+    if isinstance(t, str):
+        return False
+    if t[0] == 'cls':
+        return True
+    return any(_mentions_class(x) for x in t[1:])
+
+
 def strs():
     return st.one_of(
         st.sampled_from(TRICKY_STR),
@@ -240,9 +248,19 @@ def values(draw, spec, t, depth=2):
                 s = draw(strs())
             return {'k': 'ustr', 'c': c['name'], 'v': s}
         cands = concrete_candidates(spec, c['name'])
-        if not cands or depth <= 0 and False:
+        if not cands:
             # abstract without concrete descendants: nothing conforming exists
             return {'k': 'dict', 'v': []}
+        if depth <= 0:
+            # a subclass may hold attributes of its base's type: do not let the
+            # value grow without bound - prefer candidates that nest no further
+            simple = [x for x in cands
+                      if not any(_mentions_class(q['t']) for q in U.all_params(spec, x)
+                                 if q['d'] is None)]
+            if simple:
+                cands = simple
+            elif depth < -2:
+                return {'k': 'dict', 'v': []}
         cc = draw(st.sampled_from(cands))
         attrs = []
         for p in U.all_params(spec, cc):
